@@ -76,7 +76,7 @@ def main():
         'setup_cmd': './setup.sh',
         'hooks': {
             'guard': 'verif',
-            'enable': 'no hook commits in /repo: every check copies /repo\'s working tree to a scratch directory, rewrites it with bin/mxinstr (go/ast rules R1-R6: go/Lock/loop/atomic/wake/time.Now) and builds the worker there with go1.26.8',
+            'enable': 'no hook commits in /repo: every check copies /repo\'s working tree to a scratch directory, rewrites it with bin/mxinstr (go/ast rules R1-R8: go/Lock/loop/atomic/wake/time.Now) and builds the worker there with go1.26.8',
             'baseline_off_cmd': 'tools/baseline.sh',
             'source_commits': [],
             'add_only': True,
